@@ -1,6 +1,7 @@
 import GlareModel.Core.Util
 import GlareModel.Core.SortKey
 import GlareModel.Core.Arith
+import GlareModel.Core.Cast
 
 /-! `gmodel`: line-protocol driver. Reads `case <n> <component> ...` lines on stdin and
 prints `out <n> ...` lines computed by the code-shaped model. -/
@@ -117,6 +118,59 @@ def runSum (args : List String) : String :=
         | none => "null"
   | _ => "bad-case"
 
+def hexOfChars (cs : List Char) : String :=
+  if cs.isEmpty then "-" else hexOfBytes ((String.ofList cs).toUTF8.toList.map (·.toNat))
+
+def charsOfHex (h : String) : Option (List Char) :=
+  if h == "-" then some [] else
+  match parseHexBytes h with
+  | some bs => some (bs.map fun b => Char.ofNat b)   -- ASCII payloads only
+  | none => none
+
+def showOptInt : Option Int → String
+  | some v => s!"ok {v}"
+  | none => "fail"
+
+open Arith Cast in
+def runCast (args : List String) : String :=
+  match args with
+  | ["fmtdate", d] => match d.toInt? with
+    | some d => hexOfChars (formatDate d)
+    | none => "bad-case"
+  | ["parsedate", h] => match charsOfHex h with
+    | some cs => showOptInt (parseDate cs)
+    | none => "fail"
+  | ["fmtint", v] => match v.toInt? with
+    | some v => hexOfChars (formatInt v)
+    | none => "bad-case"
+  | ["fmtbool", v] => hexOfChars (formatBool (v == "1"))
+  | ["parsebool", h] => match charsOfHex h with
+    | some cs => match parseBool cs with
+      | some true => "ok 1" | some false => "ok 0" | none => "fail"
+    | none => "fail"
+  | ["parseint", t, h] => match parseNumTy t, charsOfHex h with
+    | some (.int ty), some cs => showOptInt (parseInt ty cs)
+    | _, _ => "fail"
+  | ["fmtdec", _, _, s, v] => match s.toNat?, v.toInt? with
+    | some s, some v => hexOfChars (formatDecimal s v)
+    | _, _ => "bad-case"
+  | ["parsedec", _, p, s, h] => match p.toNat?, s.toNat?, charsOfHex h with
+    | some p, some s, some cs => showOptInt (parseDecimal p s cs)
+    | _, _, _ => "fail"
+  | ["int2int", dst, v] => match parseNumTy dst, v.toInt? with
+    | some (.int ty), some v => showOptInt (intToInt ty v)
+    | _, _ => "bad-case"
+  | ["int2dec", dst, v] => match parseNumTy dst, v.toInt? with
+    | some (.dec d), some v => showOptInt (intToDec d v)
+    | _, _ => "bad-case"
+  | ["dec2dec", src, dst, v] => match parseNumTy src, parseNumTy dst, v.toInt? with
+    | some (.dec a), some (.dec b), some v => showOptInt (rescale a b v)
+    | _, _, _ => "bad-case"
+  | ["f64toint", dst, bits] => match parseNumTy dst, parseHexNat bits with
+    | some (.int ty), some b => showOptInt (f64ToInt ty b)
+    | _, _ => "bad-case"
+  | _ => "bad-case"
+
 def step (line : String) : Option String :=
   match splitWords line with
   | "case" :: n :: "sortkey" :: cells =>
@@ -124,6 +178,7 @@ def step (line : String) : Option String :=
     some s!"out {n} {o}\nspec {n} {sp}"
   | "case" :: n :: "arith" :: args => some s!"out {n} {runArith args}"
   | "case" :: n :: "sum" :: args => some s!"out {n} {runSum args}"
+  | "case" :: n :: "cast" :: args => some s!"out {n} {runCast args}"
   | "case" :: n :: _ => some s!"out {n} bad-component"
   | _ => none
 
